@@ -320,16 +320,27 @@ class Interp:
         if r["k"] == "Local":
             return [(OK, self.read(st, (self.local_root(st, r["id"]),)), st)]
         if r["k"] == "Def":
-            dk = r.get("dk", "")
+            dk = r.get("dk", "").split(" ")[0]          # "Const { is_type_const: false }" -> "Const"
             if dk.startswith("Ctor") or dk == "Variant":
                 return [(OK, ("enum", r["def"], ()), st)]
             if dk in ("Fn", "AssocFn"):
-                return [(OK, ("fnref", n.get("inst") or r["def"]), st)]
+                # the item's fn type is kept: a generic function used as a value (`.map(str::parse::<T>)`) is called later
+                # from a node whose own type says nothing about T
+                return [(OK, ("fnref", n.get("inst") or r["def"], n.get("ty", "")), st)]
             if dk in ("Const", "AssocConst", "Static"):
                 if self.module is not None and hasattr(self.module, "const_value"):
                     v = self.module.const_value(self, r["def"])
                     if v is not None:
                         return [(OK, v, st)]
+                # a workspace constant: its initialiser is a body of its own (literals, constructor calls, other constants)
+                cf = self.facts.fns.get(r["def"]) if hasattr(self.facts, "fns") else None
+                if cf is not None and "body" in cf and str(cf.get("dk", "")).startswith(("Const", "AssocConst")) and len(self.callstack) < self.max_depth:
+                    try:
+                        res = self.eval(cf["body"], State(st.store, st.mon, st.depth + 1))
+                    except Violation:
+                        res = []
+                    if len(res) == 1 and res[0][0] == OK and not is_unk(res[0][1]) and res[0][1][0] != "ref":
+                        return [(OK, res[0][1], st)]
                 return [(OK, unk("const:" + r["def"]), st)]
         return [(OK, unk("path"), st)]
 
@@ -656,6 +667,20 @@ class Interp:
                         res.extend(go(i + 1, s2))
                 return res
             return go(0, st)
+        if k == "Slice":
+            seq = v[1] if v[0] == "tuple" else (v[2] if v[0] == "abs" and v[1] == "svec" else None)
+            before, after = p.get("before", []), p.get("after", [])
+            if seq is None:
+                sub = [(q, unk("sliceelem")) for q in before + after] + ([(p["mid"], unk("subslice"))] if "mid" in p else [])
+                return self.match_all(sub, st) + [(False, st)]
+            nb, na = len(before), len(after)
+            if ("mid" in p and len(seq) >= nb + na) or ("mid" not in p and len(seq) == nb + na):
+                pairs = list(zip(before, seq[:nb])) + list(zip(after, seq[len(seq) - na:] if na else ()))
+                if "mid" in p:
+                    rest = tuple(seq[nb:len(seq) - na])
+                    pairs.append((p["mid"], ("tuple", rest) if v[0] == "tuple" else ("abs", "svec", rest)))
+                return self.match_all(pairs, st)
+            return [(False, st)]
         if k == "Tuple":
             if v[0] == "tuple" and len(v[1]) == len(p["pats"]) and "dd" not in p:
                 return self.match_all(list(zip(p["pats"], v[1])), st)
@@ -1134,6 +1159,9 @@ class Interp:
                         out.append((ctl, v, s4))
             return out
         if fv[0] == "fnref":
+            if len(fv) > 2 and fv[2] and " -> " in fv[2] and fv[2].rstrip().endswith("}"):
+                rty = fv[2].rsplit(" {", 1)[0].split(" -> ", 1)[1]
+                n = dict(n if isinstance(n, dict) else {}, ty=rty)
             return self.call(fv[1], args, st, n)
         if fv[0] == "enum" and not fv[2]:
             return [(OK, ("enum", fv[1], tuple(args)), st)]  # tuple-variant constructor used as a function
@@ -1147,6 +1175,19 @@ class Interp:
         self._eq_state = st
         if callee is None:
             return [(OK, unk("call"), st)]
+        if callee == "core::iter::traits::iterator::Iterator::collect" and isinstance(n, dict) and args and n.get("ty") in self.facts.adts:
+            # collecting into a workspace type runs that type's own FromIterator impl; with several impls (different item
+            # types) the one that is not already executing is meant (an impl delegating to its sibling)
+            idx = getattr(self, "_fromiter_index", None)
+            if idx is None:
+                idx = {}
+                for k, f in self.facts.fns.items():
+                    if f.get("name") == "from_iter" and f.get("trait") == "core::iter::traits::collect::FromIterator" and "body" in f:
+                        idx.setdefault(f.get("self_ty") or f.get("output"), []).append(k)
+                self._fromiter_index = idx
+            cands = [k for k in idx.get(n.get("ty"), []) if k not in self.callstack]
+            if len(cands) == 1:
+                return self.call(cands[0], [self.deref_val(st, args[0])], st, n)
         # module intrinsics first
         if self.module is not None:
             r = self.module.intrinsic(self, callee, args, st, n)
@@ -1381,6 +1422,72 @@ class Interp:
         if callee == "core::ops::try_trait::FromResidual::from_residual" or "FromResidual" in callee:
             v = args[0]
             return [(OK, v, st)]
+        if callee in ("core::option::Option::<T>::zip", "core::option::Option::<T>::and", "core::option::Option::<T>::xor"):
+            a, b = self.deref_val(st, args[0]), self.deref_val(st, args[1])
+            if a[0] == "enum" and b[0] == "enum" and a[1] in (SOME, NONE) and b[1] in (SOME, NONE):
+                m_ = callee.rsplit("::", 1)[1]
+                if m_ == "zip":
+                    return [(OK, some(("tuple", (a[2][0], b[2][0]))) if a[1] == SOME and b[1] == SOME else none(), st)]
+                if m_ == "and":
+                    return [(OK, b if a[1] == SOME else none(), st)]
+                return [(OK, a if (a[1] == SOME) != (b[1] == SOME) and a[1] == SOME else (b if (a[1] == SOME) != (b[1] == SOME) else none()), st)]
+        if callee == "core::option::Option::<T>::take" and args and args[0][0] == "ref":
+            v = self.read(st, args[0][1])
+            if v[0] == "enum" and v[1] in (SOME, NONE):
+                return [(OK, v, self.write(st, args[0][1], none()))]
+        if callee == "core::option::Option::<core::option::Option<T>>::flatten":
+            v = self.deref_val(st, args[0])
+            if v[0] == "enum" and v[1] == NONE:
+                return [(OK, v, st)]
+            if v[0] == "enum" and v[1] == SOME:
+                return [(OK, self.deref_val(st, v[2][0]), st)]
+        if callee in ("core::result::Result::<T, E>::and_then", "core::result::Result::<T, E>::or_else", "core::result::Result::<T, E>::unwrap_or_else",
+                      "core::result::Result::<T, E>::unwrap_or", "core::result::Result::<T, E>::map_or", "core::result::Result::<T, E>::map_or_else", "core::result::Result::<T, E>::err"):
+            v = self.deref_val(st, args[0])
+            m_ = callee.rsplit("::", 1)[1]
+            if v[0] == "enum" and v[1] in (OKV, ERRV):
+                ok = v[1] == OKV
+                if m_ == "and_then":
+                    return self.apply(args[1], [v[2][0]], st, n) if ok else [(OK, v, st)]
+                if m_ == "or_else":
+                    return [(OK, v, st)] if ok else self.apply(args[1], [v[2][0]], st, n)
+                if m_ == "unwrap_or_else":
+                    return [(OK, v[2][0], st)] if ok else self.apply(args[1], [v[2][0]], st, n)
+                if m_ == "unwrap_or":
+                    return [(OK, v[2][0] if ok else args[1], st)]
+                if m_ == "map_or":
+                    return self.apply(args[2], [v[2][0]], st, n) if ok else [(OK, args[1], st)]
+                if m_ == "map_or_else":
+                    return self.apply(args[2], [v[2][0]], st, n) if ok else self.apply(args[1], [v[2][0]], st, n)
+                if m_ == "err":
+                    return [(OK, none() if ok else some(v[2][0]), st)]
+        if callee in ("core::bool::<impl bool>::then", "core::bool::<impl bool>::then_some"):
+            v = self.deref_val(st, args[0])
+            if v == ("bool", False):
+                return [(OK, none(), st)]
+            if v == ("bool", True):
+                if callee.endswith("then_some"):
+                    return [(OK, some(args[1]), st)]
+                return self.then(self.apply(args[1], [], st, n), lambda r, s: [(OK, some(r), s)])
+        if callee.startswith("core::cmp::Ordering::"):
+            ORD_ = "core::cmp::Ordering::"
+            m_ = callee[len(ORD_):]
+            v = self.deref_val(st, args[0]) if args else None
+            if v is not None and v[0] == "enum" and v[1].startswith(ORD_):
+                o = v[1][len(ORD_):]
+                if m_ == "then_with":
+                    return [(OK, v, st)] if o != "Equal" else self.apply(args[1], [], st, n)
+                if m_ == "then":
+                    return [(OK, v if o != "Equal" else self.deref_val(st, args[1]), st)]
+                if m_ == "reverse":
+                    return [(OK, ("enum", ORD_ + {"Less": "Greater", "Greater": "Less", "Equal": "Equal"}[o], ()), st)]
+                tbl = {"is_eq": o == "Equal", "is_ne": o != "Equal", "is_lt": o == "Less", "is_gt": o == "Greater", "is_le": o != "Greater", "is_ge": o != "Less"}
+                if m_ in tbl:
+                    return [(OK, ("bool", tbl[m_]), st)]
+        if callee in ("core::result::Result::<T, E>::is_ok", "core::result::Result::<T, E>::is_err"):
+            v = self.deref_val(st, args[0])
+            if v[0] == "enum" and v[1] in (OKV, ERRV):
+                return [(OK, ("bool", (v[1] == OKV) == callee.endswith("is_ok")), st)]
         if callee == "core::option::Option::<T>::is_some":
             v = self.deref_val(st, args[0])
             if v[0] == "enum":
